@@ -62,6 +62,8 @@ def gen_cases(tier, seed):
     n = 120 if tier == "quick" else 8000
     for i in range(n):
         yield {"kind": "history", "seed": r.randrange(1 << 30), "files": 1 if i % 3 else 2, "length": r.randint(5, 40)}
+    for n_mod in ([2, 3, 5] if tier == "quick" else [2, 2, 3, 3, 5, 8, 13, 40]):
+        yield {"kind": "models", "seed": r.randrange(1 << 30), "n": n_mod}
     for n_iso in ([99, 100, 101, 130] if tier == "quick" else [1, 50, 99, 100, 101, 130, 199, 200, 201, 333, 1000]):
         yield {"kind": "bulk", "seed": r.randrange(1 << 30), "n": n_iso}
 
@@ -70,7 +72,48 @@ def run_case(case, ctx):
     ctx.count("case_kinds", case["kind"])
     if case["kind"] == "bulk":
         return _run_bulk(case, ctx)
+    if case["kind"] == "models":
+        return _run_models(case, ctx)
     _run_history(case, ctx)
+
+
+def _run_models(case, ctx):
+    """Several model isotherms in one file (also for one material / adsorbate pair): each comes back with its own model."""
+    import pygaps
+    from pygaps.parsing import sqlite as S
+    r = gen.rng(case["seed"], "models")
+    db = dbtools.fresh_db("models-%d" % case["seed"])
+    mark = (len(pygaps.MATERIAL_LIST), len(pygaps.ADSORBATE_LIST))
+    try:
+        stored = []
+        for i in range(case["n"]):
+            name = r.choice(["Langmuir", "Henry", "Toth", "DSLangmuir"])
+            m = GM.make_model(name, GM.random_params(name, r, typed=False), pressure_range=(0.01, 5.0), loading_range=(0.1, 9.0), rmse=0.01)
+            iso = pygaps.ModelIsotherm(model=m, material="verif-models-M", adsorbate="nitrogen", temperature=round(200.0 + i, 1), **gen.DEFAULT_UNITS)
+            out = _call(S.isotherm_to_db, iso, db_path=db, autoinsert_material=True, verbose=False)
+            if out[0] != "ok":
+                ctx.violation("models/upload-refused", "upload of a distinct model isotherm was refused", exc=out[1])
+                return
+            stored.append(iso)
+        for crit in (None, {"material": "verif-models-M"}):
+            out = _call(S.isotherms_from_db, criteria=crit, db_path=db, verbose=False)
+            ctx.case(["models", case["n"], repr(crit)])
+            ctx.count("retrieval_equality", "several-models")
+            if out[0] != "ok":
+                ctx.violation("models/retrieval-raises", "retrieval raised", exc=out[1])
+                continue
+            got = {i.iso_id: i for i in out[1]}
+            missing = [s for s in stored if s.iso_id not in got]
+            if missing or len(out[1]) != len(stored):
+                ctx.violation("iso_get/retrieved-data-not-the-stored-data", "model isotherms stored together do not come back each with its own model", n_stored=len(stored), n_retrieved=len(out[1]),
+                              n_not_found_by_id=len(missing), first_missing=missing[0].model.to_dict() if missing else None)
+    finally:
+        del pygaps.MATERIAL_LIST[mark[0]:]
+        del pygaps.ADSORBATE_LIST[mark[1]:]
+        try:
+            os.unlink(db)
+        except OSError:
+            pass
 
 
 def _run_bulk(case, ctx):
